@@ -9,7 +9,9 @@ def gen_strings(rng, n):
            '\x01\x02\x1f', 'a' * 8192, 'é' * 3000, 'x@y.co', 'Jane.Doe@Example.COM', ' pad@x.io ', 'UPPER@HOST.ORG', 'MiXeD.case+tag@Sub.Example.Org', '100% off %s', '-leading-dash', '--flag', "it's", '%s %d', 'not$field', 'REDACTED', '<b>&amp;</b>', '  ', '\x7f']
     while len(out) < n:
         k = rng.randint(0, 200)
-        out.append(''.join(chr(rng.choice([rng.randint(32, 126), rng.randint(0xa0, 0x2ff), rng.randint(0x4e00, 0x4eff), rng.randint(0x1f600, 0x1f64f)])) for _ in range(k)))
+        s = ''.join(chr(rng.choice([rng.randint(32, 126), rng.randint(0xa0, 0x2ff), rng.randint(0x4e00, 0x4eff), rng.randint(0x1f600, 0x1f64f)])) for _ in range(k))
+        if s.startswith('$'): s = 'x' + s      # a '$'-prefixed string is a field reference by design, not a sensitive value
+        out.append(s)
     return out
 
 def run(chk, replay=None):
